@@ -249,7 +249,8 @@ pub fn check_content(c: &mut Case, name: &str, m: &RefArchive, builds: usize, de
         );
     }
     // byte stability: parse then re-serialize reproduces the canonical file
-    match c.lib("BinArchive::from_bytes", || BinArchive::from_bytes(&img, endian(m.be))) {
+    let img_t = crate::monitor::tight(&img);
+    match c.lib("BinArchive::from_bytes", || BinArchive::from_bytes(&img_t, endian(m.be))) {
         None => {}
         Some(Err(e)) => c.fail("reparse_err", "reparse_err", format!("{}: from_bytes(serialize(a)) returned Err({}) content={}", name, e, m.describe())),
         Some(Ok(re)) => match c.lib("BinArchive::serialize (re-parsed)", || re.serialize()) {
